@@ -373,6 +373,24 @@ func (h *hostEnv) funcValue(id string) interface{} {
 			case <-time.After(2 * time.Second):
 			}
 		}
+	case "syncv":
+		// the barrier of `sync`, passing its argument through
+		return func(x int64) int64 {
+			h.mu.Lock()
+			h.syncArr++
+			if h.syncArr == h.syncN {
+				close(h.syncCh)
+			}
+			ch := h.syncCh
+			h.mu.Unlock()
+			select {
+			case <-ch:
+			case <-time.After(2 * time.Second):
+			}
+			return x
+		}
+	case "pair":
+		return func(a, b int64) int64 { return a*1000 + b }
 	case "cat":
 		return func(a, b string) string { return a + b }
 	case "boom":
